@@ -181,6 +181,39 @@ def suite_service_id(ctx):
     return s
 
 
+def suite_unlock_echo(ctx):
+    """the seed/key composite: both of its exchanges are answered by the server, and each reply must echo the sub-function of its own request - a seed reply or a
+    key reply that echoes another level is never returned as success"""
+    from .. import clientlib as cl
+    s = Suite('unlock_echo')
+    rng = ctx.rng
+    levels = [1, 2, 7, 0x10, 0x7D, 0x7E]
+    for level in levels:
+        k = (level + 1) // 2
+        seed_sf, key_sf = 2 * k - 1, 2 * k
+        for which in ('seed', 'key'):
+            cur = seed_sf if which == 'seed' else key_sf
+            wrong = [v for v in range(256) if v != cur] if (ctx.thorough or level in (1, 0x7E)) else wrong_values(rng, cur, 1, False)
+            for v in wrong:
+                sw = rng.choice([(True, True, True), (False, False, False), (True, True, False)])
+                client, conn = cl.make_client(cl.Cfg(rt=50, p2=20, p2s=20, exc=sw), extra={'security_algo': lambda seed, level, params: b'\xAA' + seed, 'security_algo_params': None})
+
+                def responder(p, v=v, which=which):
+                    if p[1] % 2 == 1:
+                        return [(1, bytes([0x67, v if which == 'seed' else p[1]]) + b'\x11\x22')]
+                    return [(1, bytes([0x67, v if which == 'key' else p[1]]))]
+                conn.responder = responder
+                how, verdict, flags, payload, e, r = cl.observe_outer(conn, lambda: client.unlock_security_access(level))
+                s.evaluations += 1
+                s.distinct.add('%d:%s:%d' % (level, which, v))
+                s.count('%s:%s' % (which, verdict.split(':')[0]))
+                if verdict.replace('other:', '') not in REJECTED:
+                    s.fail({'site': 'unlock_security_access', 'input': 'unlock_security_access(%d); the %s reply echoes sub-function 0x%02x (sent 0x%02x); switches %s' % (level, which, v, cur, sw),
+                            'field': 'security level (%s reply)' % which, 'sent': cur, 'echoed': v, 'observed': '%s %s' % (how, verdict),
+                            'required': 'unexpected (or invalid) response: the echo differs from the transmitted sub-function'})
+    return s
+
+
 def suite_callw(ctx):
     """whole client calls of every service family against the model's callWith (udsdrv callw): the correspondence the call-level theorems rest on"""
     from .. import callw
@@ -194,4 +227,4 @@ def suite_reentrant(ctx):
     return reentrant.suite_reentrant(ctx)
 
 
-SUITES = [suite_echo, suite_service_id, suite_callw, suite_reentrant]
+SUITES = [suite_echo, suite_service_id, suite_callw, suite_reentrant, suite_unlock_echo]
